@@ -177,4 +177,25 @@ def control_requests(group, execmodel="thread", python=None):
     out["gone_after_kill_ms"] = procs.wait_gone([pid], 5.0)[pid]
     rc = gw._io.wait()
     out["wait_returned"] = rc is not None
+    # a wait request that is still pending must not keep a later kill request from reaching the process
+    # (Group.terminate: io.wait() in one thread, after the time-out io.kill() in another)
+    import threading
+
+    gw2 = group.makegateway(f"popen//via=ctlm//execmodel={execmodel}//id=ctl2" + (f"//python={py}" if py else ""))
+    pid2 = gw2.remote_exec("import os\nchannel.send(os.getpid())").receive(10)
+    gw2.remote_exec("import time\ntime.sleep(1000)")
+    box = {}
+    th = threading.Thread(target=lambda: box.update(rc=gw2._io.wait()), daemon=True)
+    th.start()
+    import time
+
+    time.sleep(0.5)
+    killer = threading.Thread(target=gw2._io.kill, daemon=True)
+    killer.start()
+    out["gone_after_wait_then_kill_ms"] = procs.wait_gone([pid2], 5.0)[pid2]
+    th.join(5)
+    killer.join(5)
+    out["pending_wait_returned"] = not th.is_alive()
+    if out["gone_after_wait_then_kill_ms"] == -1:
+        procs.reap([pid2])
     return out
